@@ -177,7 +177,7 @@ def shard_c12(spec, acc):
 
 def random_range(rng, max_days=1100):
     d = dt.date(1990, 1, 1) + dt.timedelta(days=rng.randint(0, 25500))
-    n = rng.choice([0, 1, 2, 5, 9, 30, 90, 365, rng.randint(0, max_days)])
+    n = rng.choice([0, 0, 1, 2, 5, 9, 30, 90, 365, rng.randint(0, max_days)])
     t1 = dt.time(rng.randint(0, 23), rng.choice([0, 15, 30, 59]), rng.choice([0, 0, 59, 15]),
                  rng.choice([0, 0, 0, 250000, 1, 999999]))
     if rng.random() < 0.5:
@@ -186,6 +186,8 @@ def random_range(rng, max_days=1100):
     t2 = rng.choice([dt.time(23, 59), t1, dt.time(23, 59, 59)])
     if t2 < t1:
         t2 = t1
+    if n == 0 and rng.random() < 0.5:
+        t2 = t1                         # start and end are the same instant (start <= end still holds)
     return cal.at(d, t1), cal.at(d + dt.timedelta(days=n), t2)
 
 
